@@ -278,6 +278,49 @@ def pair(kind, p, q):
     return probs
 
 
+def prefix_pair(kind, p, q):
+    """p is a proper segment-prefix of q. Inside ONE evaluation the API refuses such a pair (C11); across two commits nothing
+    does. Commit p -> k1 and q -> k2 in two separate commits, in both orders: whatever the second commit answers, the first path
+    still resolves to its key, a commit that returned resolves, and a commit that failed left nothing behind."""
+    probs = []
+    for first, second in ((p, q), (q, p)):
+        s = build(kind)
+        order = "parent_first" if first == p else "child_first"
+        try:
+            s.store.store_blob(H["k1"], VALS["k1"], None)
+            s.store.store_blob(H["k2"], VALS["k2"], None)
+            r1 = call(lambda: s.store.sync_paths(OrderedDict([(first, H["k1"])])))
+            if r1[0] != "ok":
+                continue
+            before = physical(s)
+            r2 = call(lambda: s.store.sync_paths(OrderedDict([(second, H["k2"])])))
+            f1 = call(lambda: s.store.fetch_paths([first]))
+            got1 = str(f1[1].get(first)) if f1[0] == "ok" and hasattr(f1[1], "get") else f1
+            if got1 != H["k1"]:
+                probs.append((f"C08|{kind}|prefix_pair|{order}|earlier_path_lost",
+                              f"{first!r} -> k1 committed, then {second!r} -> k2 ({r2[0]}): {first!r} now resolves to {got1 if isinstance(got1, tuple) else 'k' + str(got1)[:1]}"))
+            if r2[0] == "ok":
+                f2 = call(lambda: s.store.fetch_paths([second]))
+                got2 = str(f2[1].get(second)) if f2[0] == "ok" and hasattr(f2[1], "get") else f2
+                if got2 != H["k2"]:
+                    probs.append((f"C08|{kind}|prefix_pair|{order}|later_path_wrong", f"{second!r} -> k2 committed after {first!r}, but it resolves to {got2}"))
+            else:
+                if r2[0] == "exc":
+                    probs.append((f"C08|{kind}|prefix_pair|{order}|crash|{r2[1]}", f"{first!r} committed by an earlier evaluation, then sync_paths({second!r}) -> {r2}"))
+                left = sorted(set(physical(s)) - set(before))
+                if left:
+                    probs.append((f"C08|{kind}|prefix_pair|{order}|leftover", f"the failed commit of {second!r} left {left[:2]} behind"))
+        finally:
+            teardown(s)
+    return probs
+
+
+def _prefix_job(items):
+    core.ensure_repo_dds()
+    time.time = lambda: 1.6e9
+    return [(kind, p, q, prefix_pair(kind, p, q)) for kind, p, q in items]
+
+
 def _single_job(items):
     core.ensure_repo_dds()
     time.time = lambda: 1.6e9
@@ -401,6 +444,12 @@ def run(tier, seed):
                 a, b = sorted(distinct.values(), key=lambda x: (len(x), x))[:2]
                 res.violations.append(Violation(P, f"C08|{kind}|shared_location|{_shape(a)}~{_shape(b)}",
                                                 f"paths {a!r} and {b!r} both write {loc}", {"mode": "foot", "kind": kind, "p": a, "q": b}))
+    # proper segment-prefix pairs committed by two separate evaluations
+    ppairs = [(kind, a, b) for kind in ("memory", "local") for a, b in
+              [("/a", "/a/b"), ("/a/b", "/a/b/a"), ("/a", "/a/b/ab"), ("/a b", "/a b/a"), ("/é", "/é/a"), ("/a.b", "/a.b/.a")]]
+    for kind, a, b, probs in pool.pmap(_prefix_job, ppairs):
+        for k, what in probs:
+            res.violations.append(Violation(P, k, what, {"mode": "prefix", "kind": kind, "p": a, "q": b}))
     pres = pool.pmap(_pair_job, pairs)
     for kind, p, q, probs in pres:
         for k, what in probs:
@@ -410,7 +459,7 @@ def run(tier, seed):
     res.coverage = dict(
         states=states, transitions=trans + len(singles) + 3 * len(pairs),
         traces_validated_against_impl=trans + len(singles) + 3 * len(pairs),
-        bfs=per, single_paths=len(singles), path_pairs=len(pairs), owned_locations=n_loc, footprint_touching_pairs_local=n_touch,
+        bfs=per, single_paths=len(singles), path_pairs=len(pairs), prefix_pairs_across_commits=len(ppairs), owned_locations=n_loc, footprint_touching_pairs_local=n_touch,
         rejected_paths=nrej, exhaustive=(tier == "thorough"),
         rule="Part A: BFS over 27 store operations (store/has/fetch of 5 keys with str, bytes, None, object values; sync/fetch of a "
              "3-path window; reopen) against a dictionary model, state = model + physical state. Part B: each of the "
@@ -420,7 +469,7 @@ def run(tier, seed):
     )
     res.assumptions = ["a key always maps to one value (content addressing); committing a path to a never-stored blob is not exercised",
                        "DBFS is a dictionary-backed fake of dbutils.fs; '.'/'..' segments are not paired on DBFS (URI normalisation is the service's)",
-                       "segment-prefix pairs (/a, /a/b) are excluded from aliasing: the API rejects them before the store (C11)"]
+                       "segment-prefix pairs (/a, /a/b) are excluded from aliasing inside one commit: the API rejects them before the store (C11); across two commits they are exercised separately (prefix_pair)"]
     return res
 
 
@@ -441,6 +490,8 @@ def replay(case):
             teardown(s)
     if m == "single":
         return [Violation(P, k, w, case) for k, w in single(case["kind"], case["path"])[2]]
+    if m == "prefix":
+        return [Violation(P, k, what, case) for k, what in prefix_pair(case["kind"], case["p"], case["q"])]
     if m == "pair":
         return [Violation(P, k, w, case) for k, w in pair(case["kind"], case["p"], case["q"])]
     if m == "foot":
